@@ -28,7 +28,7 @@ type plVal struct {
 	IsStr bool
 	I     int64
 	S     string
-	Big   bool   // unsigned integer above MaxInt64, kept in U
+	Big   bool // unsigned integer above MaxInt64, kept in U
 	U     uint64
 }
 
